@@ -266,8 +266,8 @@ impl Check for C13 {
     }
     fn cases(&self, tier: Tier) -> u64 {
         match tier {
-            Tier::Quick => 150_000,
-            Tier::Thorough => 6_000_000,
+            Tier::Quick => 1_000_000,
+            Tier::Thorough => 30_000_000,
         }
     }
     fn both_profiles(&self) -> bool {
